@@ -294,6 +294,30 @@ func classifyReadSite(kind string, parents []ast.Node, call *ast.CallExpr) strin
 	return "unknown"
 }
 
+// rs_bufferUsedAfter: is the first argument of the read (an identifier) referred to after the call in fd?
+// Anything that is not a plain identifier counts as used (conservative).
+func rs_bufferUsedAfter(p *packages.Package, fd *ast.FuncDecl, call *ast.CallExpr) bool {
+	if len(call.Args) == 0 {
+		return true
+	}
+	id, ok := call.Args[0].(*ast.Ident)
+	if !ok {
+		return true
+	}
+	obj := p.TypesInfo.Uses[id]
+	if obj == nil {
+		return true
+	}
+	used := false
+	ast.Inspect(fd.Body, func(n ast.Node) bool {
+		if x, ok := n.(*ast.Ident); ok && x.Pos() > call.End() && p.TypesInfo.Uses[x] == obj {
+			used = true
+		}
+		return !used
+	})
+	return used
+}
+
 func rs_funcDisplayName(pkgName string, fd *ast.FuncDecl) string {
 	if fd.Recv != nil && len(fd.Recv.List) == 1 {
 		t := fd.Recv.List[0].Type
@@ -360,6 +384,11 @@ func genReadSites() {
 						on := true
 						if ex, ok := readSiteOffPath[fn]; ok && strings.HasPrefix(text, ex[0]) {
 							on = false
+							// "bytes discarded" is checked, not assumed: the buffer handed to the read must not be
+							// mentioned again in the function after the call (stored, returned, decoded, ...)
+							if strings.Contains(ex[1], "discarded") && rs_bufferUsedAfter(p, fd, call) {
+								on = true
+							}
 						}
 						sites = append(sites, readSite{file: rel, fn: fn, call: text, cls: cls,
 							line: p.Fset.Position(call.Pos()).Line, onPath: on})
